@@ -77,17 +77,26 @@ def c20(tier):
             F.available_forms[1970] = progs_mod.build_forms(prog)
             inputs = sorted(x["all_inputs"])
             answers = {i: rng.choice(["0", "1"]) for i in inputs}
-            cfg0 = {i: rng.choice(["0", "1"]) for i in inputs if rng.random() < 0.3}
-            # how many questions does the uninterrupted session ask?
-            sid += 1
-            base = one_session(sid, 1970, prog["request"], cfg0, answers, "0", None, None, work)
-            sessions.append(base)
-            meta[sid] = {"prog": prog["id"], "cfg0": cfg0, "answers": answers}
-            for k in range(1, base["nq"] + 1):
-                for kind in ("ctrlc", "eof"):
-                    sid += 1
-                    sessions.append(one_session(sid, 1970, prog["request"], cfg0, answers, "0", k, kind, work))
-                    meta[sid] = {"prog": prog["id"], "cfg0": cfg0, "answers": answers, "k": k, "kind": kind}
+            by_sec = {}
+            for i in inputs:
+                by_sec.setdefault(i.split(".")[0], []).append(i)
+            # two kinds of initial file: a random part of the inputs; one value of every section that has more to ask
+            # (so that no answer opens a new section)
+            files = [{i: rng.choice(["0", "1"]) for i in inputs if rng.random() < 0.3}]
+            every = {v[0]: answers[v[0]] for v in by_sec.values() if len(v) > 1}
+            if every and every != files[0]:
+                files.append(every)
+            for cfg0 in files:
+                # how many questions does the uninterrupted session ask?
+                sid += 1
+                base = one_session(sid, 1970, prog["request"], cfg0, answers, "0", None, None, work)
+                sessions.append(base)
+                meta[sid] = {"prog": prog["id"], "cfg0": cfg0, "answers": answers}
+                for k in range(1, base["nq"] + 1):
+                    for kind in ("ctrlc", "eof"):
+                        sid += 1
+                        sessions.append(one_session(sid, 1970, prog["request"], cfg0, answers, "0", k, kind, work))
+                        meta[sid] = {"prog": prog["id"], "cfg0": cfg0, "answers": answers, "k": k, "kind": kind}
         F.available_forms.pop(1970, None)
         # (T) real returns: a prompted scenario is recorded, then replayed through the CLI and interrupted at k
         nscen = 2 if tier == "quick" else 9
@@ -99,7 +108,12 @@ def c20(tier):
             tr, res, solver, ans = scenarios.solve_scenario(year, request, p, r2, snap="none")
             answers = dict(ans.given)
             order = list(ans.order)
-            part = {a: answers[a] for a in order[: len(order) // 3]}        # a third is already in the file
+            part = {a: answers[a] for a in order[: len(order) // 3]}        # a third is already in the file ...
+            first = {}
+            for a in order:
+                first.setdefault(a.split(".")[0], a)
+            if n % 2 == 0:
+                part.update({a: answers[a] for a in first.values()})        # ... and (every other return) one value of every section
             ks = list(range(1, len(order) - len(part) + 1))
             if tier == "quick":
                 ks = ks[::9] + ks[-2:]
